@@ -4,6 +4,7 @@ import (
 	"go/ast"
 	"go/token"
 	"strconv"
+	"strings"
 )
 
 func init() { registry = append(registry, factsC13) }
@@ -75,6 +76,9 @@ func factsC13() {
 	add("C13", "newChanMakes", "Nat", v, "number of `ch = make(chan …)` in timer.New (date, cycle, duration)")
 
 	rec := funcDecl(tm, "", "recurringTimer")
+	// locals that merely name a path once (`end := interval.Interval.End`) are read as that path
+	exprAliases = singleAssignPaths(rec)
+	defer func() { exprAliases = nil }()
 	var loopSel *ast.SelectStmt
 	if rec != nil {
 		ast.Inspect(rec, func(x ast.Node) bool {
@@ -126,7 +130,14 @@ func factsC13() {
 
 	endCheck := ""
 	if rec != nil {
-		endCheck = boolLit(callPos(rec, "Interval.End.After") != token.NoPos)
+		found := false
+		ast.Inspect(rec, func(x ast.Node) bool {
+			if c, ok := x.(*ast.CallExpr); ok && strings.HasSuffix(exprString(c.Fun), "Interval.End.After") {
+				found = true
+			}
+			return true
+		})
+		endCheck = boolLit(found)
 	}
 	add("C13", "endCheckedBeforeFiring", "Bool", endCheck, "recurringTimer tests End.After(clock.Now()) before a firing")
 
